@@ -699,3 +699,181 @@ Proof.
     unfold A. rewrite <- !app_assoc. cbn [app].
     repeat (f_equal; try lia).
 Qed.
+
+Lemma v3_le v : 0 <= v < 16777216 -> v3 (v mod 256) (v / 256 mod 256) (v / 256 / 256 mod 256) = v.
+Proof. intros H. unfold v3. lia. Qed.
+Lemma v4_le v : 0 <= v < 4294967296 ->
+  v4 (v mod 256) (v / 256 mod 256) (v / 256 / 256 mod 256) (v / 256 / 256 / 256 mod 256) = v.
+Proof. intros H. unfold v4. lia. Qed.
+
+Lemma firstn_app_exact (a b:list Z) : firstn (length a) (a ++ b) = a.
+Proof. rewrite firstn_app, firstn_all, Nat.sub_diag. cbn [firstn]. apply app_nil_r. Qed.
+
+Lemma req_body_length m : length (req_body m) = (8 + length (data m))%nat.
+Proof. unfold req_body. cbn [le app length]. reflexivity. Qed.
+
+Lemma check_pure_complete now d bs c m : consistent now d c m -> bs mod 256 = sumx (nth 1 c 0 + 2) c 0 mod 256 ->
+  check_pure now d bs c = Some m /\ (nth 0 c 0 = T_DATA \/ nth 0 c 0 = T_REQ).
+Proof.
+  intros (Hb & Hsum & Hlen & Hpgn & Htim & ck & Hc) Hs.
+  change (2 ^ 24) with 16777216 in Hpgn. change (2 ^ 32) with 4294967296 in Htim.
+  set (n := Z.of_nat (length (data m))) in *.
+  destruct Hc as [Hc | (Hc & Hsrc & Htm)].
+  - assert (N0 : nth 0 c 0 = 147) by (rewrite Hc; reflexivity).
+    assert (N1 : nth 1 c 0 = n + 11) by (rewrite Hc; reflexivity).
+    assert (N2 : nth 2 c 0 = pri m) by (rewrite Hc; reflexivity).
+    assert (N3 : nth 3 c 0 = pgn m mod 256) by (rewrite Hc; reflexivity).
+    assert (N4 : nth 4 c 0 = pgn m / 256 mod 256) by (rewrite Hc; reflexivity).
+    assert (N5 : nth 5 c 0 = pgn m / 256 / 256 mod 256) by (rewrite Hc; reflexivity).
+    assert (N6 : nth 6 c 0 = dst m) by (rewrite Hc; reflexivity).
+    assert (N7 : nth 7 c 0 = src m) by (rewrite Hc; reflexivity).
+    assert (N8 : nth 8 c 0 = tim m mod 256) by (rewrite Hc; reflexivity).
+    assert (N9 : nth 9 c 0 = tim m / 256 mod 256) by (rewrite Hc; reflexivity).
+    assert (N10 : nth 10 c 0 = tim m / 256 / 256 mod 256) by (rewrite Hc; reflexivity).
+    assert (N11 : nth 11 c 0 = tim m / 256 / 256 / 256 mod 256) by (rewrite Hc; reflexivity).
+    assert (N12 : nth 12 c 0 = n) by (rewrite Hc; reflexivity).
+    assert (Hl : Z.of_nat (length c) = 14 + n).
+    { rewrite Hc, app_length, data_body_length. cbn [length]. unfold n. lia. }
+    assert (Hla : last c 0 = ck) by (rewrite Hc; apply last_last).
+    assert (Hsx : sumx (nth 1 c 0 + 2) c 0 = sum (data_body m)).
+    { rewrite N1, Hc. apply sumx_last. rewrite data_body_length. unfold n. lia. }
+    assert (Hsk : skipn 13 c = data m ++ [ck]) by (rewrite Hc; reflexivity).
+    assert (Hck : 0 <= ck < 256).
+    { rewrite Hc in Hb. apply bytes_app in Hb. destruct Hb as [_ Hb]. apply Forall_inv in Hb. exact Hb. }
+    assert (Hsc : sum c = sum (data_body m) + ck).
+    { rewrite Hc, sum_app. unfold sum at 2. cbn [fold_right]. lia. }
+    rewrite Hsx in Hs. split; [|left; rewrite N0; reflexivity].
+    unfold check_pure. rewrite Hl, N1, Hla, N0.
+    destruct (Z.eqb_spec (14 + n) (n + 11 + 3)) as [_|E]; [|lia]. cbn [negb].
+    assert (Eck : (if bs =? 0 then 0 else 256 - bs) mod 256 = ck) by (apply (cksum_ok bs _ ck Hs); lia).
+    rewrite Eck, Z.eqb_refl. cbn [negb].
+    change (147 =? T_DATA) with true. cbn iota.
+    unfold fin_pure. rewrite Hl, N12.
+    destruct (Z.gtb_spec n MAXDATA) as [E|_]; [unfold MAXDATA, n in E; lia|]. cbn [orb].
+    destruct (Z.eqb_spec (13 + n) (14 + n - 1)) as [_|E]; [|lia]. cbn [negb].
+    rewrite N2, N3, N4, N5, N6, N7, N8, N9, N10, N11. rewrite v3_le by lia. rewrite v4_le by lia.
+    change (Z.to_nat 13) with 13%nat. rewrite Hsk. unfold n. rewrite Nat2Z.id, firstn_app_exact.
+    destruct m; reflexivity.
+  - assert (N0 : nth 0 c 0 = 148) by (rewrite Hc; reflexivity).
+    assert (N1 : nth 1 c 0 = n + 6) by (rewrite Hc; reflexivity).
+    assert (N2 : nth 2 c 0 = pri m) by (rewrite Hc; reflexivity).
+    assert (N3 : nth 3 c 0 = pgn m mod 256) by (rewrite Hc; reflexivity).
+    assert (N4 : nth 4 c 0 = pgn m / 256 mod 256) by (rewrite Hc; reflexivity).
+    assert (N5 : nth 5 c 0 = pgn m / 256 / 256 mod 256) by (rewrite Hc; reflexivity).
+    assert (N6 : nth 6 c 0 = dst m) by (rewrite Hc; reflexivity).
+    assert (N7 : nth 7 c 0 = n) by (rewrite Hc; reflexivity).
+    assert (Hl : Z.of_nat (length c) = 9 + n).
+    { rewrite Hc, app_length, req_body_length. cbn [length]. unfold n. lia. }
+    assert (Hla : last c 0 = ck) by (rewrite Hc; apply last_last).
+    assert (Hsx : sumx (nth 1 c 0 + 2) c 0 = sum (req_body m)).
+    { rewrite N1, Hc. apply sumx_last. rewrite req_body_length. unfold n. lia. }
+    assert (Hsk : skipn 8 c = data m ++ [ck]) by (rewrite Hc; reflexivity).
+    assert (Hck : 0 <= ck < 256).
+    { rewrite Hc in Hb. apply bytes_app in Hb. destruct Hb as [_ Hb]. apply Forall_inv in Hb. exact Hb. }
+    assert (Hsc : sum c = sum (req_body m) + ck).
+    { rewrite Hc, sum_app. unfold sum at 2. cbn [fold_right]. lia. }
+    rewrite Hsx in Hs. split; [|right; rewrite N0; reflexivity].
+    unfold check_pure. rewrite Hl, N1, Hla, N0.
+    destruct (Z.eqb_spec (9 + n) (n + 6 + 3)) as [_|E]; [|lia]. cbn [negb].
+    assert (Eck : (if bs =? 0 then 0 else 256 - bs) mod 256 = ck) by (apply (cksum_ok bs _ ck Hs); lia).
+    rewrite Eck, Z.eqb_refl. cbn [negb].
+    change (148 =? T_DATA) with false. cbn iota.
+    unfold fin_pure. rewrite Hl, N7.
+    destruct (Z.gtb_spec n MAXDATA) as [E|_]; [unfold MAXDATA, n in E; lia|]. cbn [orb].
+    destruct (Z.eqb_spec (8 + n) (9 + n - 1)) as [_|E]; [|lia]. cbn [negb].
+    rewrite N2, N3, N4, N5, N6. rewrite v3_le by lia.
+    change (Z.to_nat 8) with 8%nat. rewrite Hsk. unfold n. rewrite Nat2Z.id, firstn_app_exact.
+    change (2 ^ 32) with 4294967296 in Htm. rewrite <- Hsrc, <- Htm.
+    destruct m; reflexivity.
+Qed.
+
+(* ---------- feeding a frame ---------- *)
+Lemma run'_inv now l s : Inv s -> bytes l -> Inv (fst (run' now s l)).
+Proof. intros Hi Hl. apply (run_eq now l s Hi Hl). Qed.
+
+Lemma run'_cons now s x r :
+  run' now s (x :: r) =
+  (fst (run' now (fst (step' now s x)) r),
+   match snd (step' now s x) with Some m => m :: snd (run' now (fst (step' now s x)) r) | None => snd (run' now (fst (step' now s x)) r) end).
+Proof. reflexivity. Qed.
+
+Lemma step'_esc1 now s : coming s = true -> escd s = false ->
+  step' now s ESC = (with_flags s true (sot s) true, None).
+Proof. intros Hc He. unfold step'. rewrite Hc, He. reflexivity. Qed.
+
+Lemma step'_esc2 now s : coming s = true -> escd s = true -> pos s < MAXBUF ->
+  step' now s ESC = (added (with_flags s true (sot s) false) ESC, None).
+Proof.
+  intros Hc He Hp. unfold step'. rewrite Hc, He. change (ESC =? ESC) with true. cbn iota.
+  destruct (Z.ltb_spec (pos s) MAXBUF) as [_|H]; [reflexivity|lia].
+Qed.
+
+Lemma step'_plain now s x : coming s = true -> escd s = false -> x <> ESC -> pos s < MAXBUF ->
+  step' now s x = (added s x, None).
+Proof.
+  intros Hc He Hx Hp. unfold step'. rewrite Hc, He.
+  destruct (Z.eqb_spec x ESC) as [E|_]; [contradiction|].
+  destruct (Z.ltb_spec (pos s) MAXBUF) as [_|H]; [reflexivity|lia].
+Qed.
+
+(* one content byte (escaped) inside a frame *)
+Lemma feed1 now s x : coming s = true -> escd s = false -> pos s < MAXBUF ->
+  let r := run' now s (esc [x]) in
+  snd r = [] /\ coming (fst r) = true /\ escd (fst r) = false /\ buf (fst r) = buf s ++ [x] /\
+  dsrc (fst r) = dsrc s /\ sot (fst r) = sot s.
+Proof.
+  intros Hc He Hp. cbn [esc]. cbv zeta.
+  destruct (Z.eqb_spec x ESC) as [E|E].
+  - subst x. rewrite run'_cons, (step'_esc1 now s Hc He). cbn [fst snd].
+    rewrite run'_cons, (step'_esc2 now (with_flags s true (sot s) true) eq_refl eq_refl Hp).
+    cbn [fst snd run' added with_flags coming sot escd buf dsrc]. repeat split.
+  - rewrite run'_cons, (step'_plain now s x Hc He E Hp).
+    cbn [fst snd run' added coming sot escd buf dsrc]. repeat split; assumption.
+Qed.
+
+Lemma esc_bytes l : bytes l -> bytes (esc l).
+Proof.
+  induction l as [|x l IH]; intros H; [constructor|].
+  pose proof (Forall_inv H) as Hx. pose proof (Forall_inv_tail H) as Hl. cbn [esc].
+  destruct (x =? ESC).
+  - constructor; [unfold byte, ESC; lia|]. constructor; [unfold byte, ESC; lia|]. apply IH. exact Hl.
+  - constructor; [exact Hx|]. apply IH. exact Hl.
+Qed.
+
+Lemma esc_cons x l : esc (x :: l) = esc [x] ++ esc l.
+Proof. cbn [esc]. destruct (x =? ESC); reflexivity. Qed.
+
+Lemma run'_esc now l : forall s, Inv s -> coming s = true -> escd s = false -> bytes l ->
+  pos s + Z.of_nat (length l) <= MAXBUF ->
+  let r := run' now s (esc l) in
+  snd r = [] /\ coming (fst r) = true /\ escd (fst r) = false /\ buf (fst r) = buf s ++ l /\
+  dsrc (fst r) = dsrc s /\ sot (fst r) = sot s /\ Inv (fst r).
+Proof.
+  induction l as [|x l IH]; intros s Hi Hc He Hl Hp.
+  - cbn [esc run' fst snd]. rewrite app_nil_r. repeat (split; [first [reflexivity|assumption]|]). exact Hi.
+  - pose proof (Forall_inv Hl) as Hx. pose proof (Forall_inv_tail Hl) as Hl'. cbn [length] in Hp.
+    rewrite esc_cons. cbv zeta. rewrite run'_app. cbn [fst snd].
+    destruct (feed1 now s x Hc He ltac:(lia)) as (F1 & F2 & F3 & F4 & F5 & F6).
+    assert (Hi1 : Inv (fst (run' now s (esc [x])))).
+    { apply run'_inv; [exact Hi|]. apply esc_bytes. constructor; [exact Hx|constructor]. }
+    set (s1 := fst (run' now s (esc [x]))) in *.
+    destruct (IH s1 Hi1 F2 F3 Hl') as (G1 & G2 & G3 & G4 & G5 & G6 & G7).
+    { unfold pos in *. rewrite F4, app_length. cbn [length]. lia. }
+    rewrite F1, G1, G4, F4, G5, F5, G6, F6. rewrite <- app_assoc. repeat (split; [first [reflexivity|assumption]|]). exact G7.
+Qed.
+
+(* a start sequence, from every state that is not waiting for the second half of an escape pair *)
+Lemma start_seq now s : mid_escape s = false ->
+  let r := run' now s [ESC; STX] in
+  snd r = [] /\ coming (fst r) = false /\ sot (fst r) = true /\ escd (fst r) = false /\ buf (fst r) = [] /\
+  bsum (fst r) = 0 /\ dsrc (fst r) = dsrc s.
+Proof.
+  destruct s as [c so e bf st sm d]. unfold mid_escape. cbn [coming escd].
+  intros H. cbn [run']. unfold step'. cbn [coming sot escd].
+  change (ESC =? ESC) with true. change (ESC =? STX) with false. change (STX =? ESC) with false.
+  change (STX =? ETX) with false. change (STX =? STX) with true.
+  destruct c; destruct e; try discriminate; destruct so; cbn [fst snd with_flags clear coming sot escd buf bsum dsrc];
+    try (repeat split; reflexivity);
+    destruct (pos {| coming := false; sot := true; escd := _; buf := bf; stale := st; bsum := sm; dsrc := d |} <? MAXBUF);
+    cbn [fst snd with_flags clear added coming sot escd buf bsum dsrc]; repeat split; reflexivity.
+Qed.
